@@ -1046,6 +1046,7 @@ def m_next(I, st, call):
                 s2.cells[key] = k
                 val = I.mat(s2, item_ty[1][1], "mapval")
                 I.write(s2, ref.place, it.with_(last_key=k.aff))
+                st.ghost[("inj", "map-exhausted")] = True
                 out = [(st, mk_none(dt))]
                 if not s2.dead:
                     out.append((s2, mk_option(I, StructV([RefV(Place(key), False), val]), dt)))
@@ -1273,7 +1274,7 @@ def m_str_find(I, st, call):
     I.str_boundaries.setdefault(s.base, set()).add(s.off + i.aff)
     if width == 1:
         I.str_boundaries[s.base].add(s.off + i.aff + 1)
-        I.syminfo[i.aff.t[0][0]] = ("found_ascii", s.base, s.off, pat.aff.c)
+        I.syminfo[i.aff.t[0][0]] = ("found_ascii", s.base, s.off, pat.aff.c, call.name)
     return [(s0, mk_none(dt)), (st, mk_option(I, i, dt))]
 
 
